@@ -222,9 +222,10 @@ static JanetSlot do_put(JanetFopts opts, JanetSlot *args) {
         janetc_emit_sss(opts.compiler, JOP_PUT, args[0], args[1], args[2], 0);
         return janetc_cslot(janet_wrap_nil());
     } else {
+        /* Put first: the target may be the variable that holds the key or the value */
+        janetc_emit_sss(opts.compiler, JOP_PUT, args[0], args[1], args[2], 0);
         JanetSlot t = janetc_gettarget(opts);
         janetc_copy(opts.compiler, t, args[0]);
-        janetc_emit_sss(opts.compiler, JOP_PUT, t, args[1], args[2], 0);
         return t;
     }
 }
